@@ -196,7 +196,7 @@ Fixpoint head_atomic (x : ty) : bool :=
   match x with
   | TArr y | TIdx y _ | TUnion y _ | TInter y _ | TCond y _ _ _ => head_atomic y
   | TPrim | TThis | TRef _ _ _ | TLit _ | TUnique | TInfer _ | TPred _ _ | TTypeof _ _ _ | TImport _ _ _ | TTemplate _ => true
-  | TFn k _ _ _ => 1 <=? k
+  | TFn _ _ _ _ | TParen _ | TKeyof _ _ => true
   | _ => false
   end.
 Definition paren_content_ok (t : ty) : bool := head_atomic t.
